@@ -50,6 +50,12 @@ func Load(repo string, overlay map[string][]byte, tags string) (*World, error) {
 	if tags != "" {
 		cfg.BuildFlags = []string{"-tags=" + tags}
 	}
+	// scratch worktrees (seed matrix, benign variants): -trimpath makes the export data of
+	// unchanged packages shareable between worktrees instead of filling the build cache with
+	// one copy per directory (a day of such runs grew the cache to 111 GB)
+	if os.Getenv("TIBCVET_TRIMPATH") != "" {
+		cfg.BuildFlags = append(cfg.BuildFlags, "-trimpath")
+	}
 	pats := append([]string{"./..."}, extraPkgs...)
 	pkgs, err := packages.Load(cfg, pats...)
 	if err != nil {
